@@ -37,6 +37,7 @@ MIN_REACH = {
     "missing_positions_checked": {"quick": 1500, "thorough": 30000},
     "full_reaps_after_partial": {"quick": 40, "thorough": 500},
     "subsets_with_failed_write_leftovers": {"quick": 80, "thorough": 1200},
+    "locations_used_before_by_another_crop": {"quick": 10, "thorough": 100},
 }
 TIME_BUDGET = {"quick": 400, "thorough": 3400}
 CASE_TIMEOUT = {"quick": 300, "thorough": 900}
@@ -148,6 +149,23 @@ def run_case(ctx, case):
         else:
             shuffle_at_sow = case["shuffle"]
     var_names, var_dims, var_coords = _descr(kind)
+    if case["idx"] % 3 == 1:
+        # second use of the same location in one process: an earlier crop of the same name, whose function returned a
+        # DIFFERENT kind of result, was partially reaped, finished, reaped and thereby deleted
+        try:
+            with quiet():
+                pk = "str" if not kind.startswith("str") else "tuple:2"
+                pc = xyzpy.Crop(fn=probe.Probe(pk, name="probe"), name=name, parent_dir=tmp, batchsize=1)
+                pc.sow_combos({"a": [1, 2, 3]})
+                pc.grow(2)
+                pc.reap(allow_incomplete=True)
+                pc.grow_missing()
+                pc.reap()
+            ctx.count("locations_used_before_by_another_crop")
+        except Exception as e:
+            ctx.violation(case, "prelude crop at the same location raised %r" % (e,), dict(sig, step="prelude", **exc_sig(e)))
+            ctx.rmtree(tmp)
+            return
     try:
         with quiet():
             if form == "runner_ds":
